@@ -298,15 +298,17 @@ def c01(tier, seed):
 # ---------------------------------------------------------------------------
 # C02: failure kind x callback context x position
 
-KINDS = [("errorf", {}), ("error", {}), ("fail", {}), ("errorf0", {}), ("fatalf", {}), ("fatal", {}), ("failnow", {}),
+KINDS = [("errorf", {}), ("error", {}), ("fail", {}), ("errorf0", {}), ("errornl", {}), ("fatalf", {}), ("fatal", {}), ("failnow", {}),
          ("panic", {"val": "string"}), ("panic", {"val": "error"}), ("panic", {"val": "struct"}), ("panic", {"val": "int"}),
          ("rterr", {"val": "nilmap"}), ("rterr", {"val": "index"}), ("rterr", {"val": "div"})]
-NONFATAL = {"errorf", "error", "fail", "errorf0"}
+NONFATAL = {"errorf", "error", "fail", "errorf0", "errornl"}
 
 
 def sig_op(kind, extra, site=1):
     if kind == "errorf0":
         return {"op": "error0"}
+    if kind == "errornl":
+        return {"op": "errornl", "n": site % 2}
     d = {"op": kind, "site": site}
     d.update(extra)
     return d
@@ -447,6 +449,10 @@ BEHAVIOURS = {
     "CNP": [op("cleanup", body=[op("ctx")]), op("cleanupnil"), draw(g("Bool"), "p")],
     "CSE": [op("cleanup", body=[op("errorf", text="first registered")]), op("cleanup", body=[op("skip")])],   # the skipping cleanup runs first; the other one must still run now
     "AL": [draw(g("Int8"), ""), draw(g("Bool"), "")],                           # unlabelled draws (draw bookkeeping)
+    # a cleanup fails fatally, and the cleanup that runs after it (registered before it) skips: the test case is falsified all the same
+    "CFS": [op("cleanup", body=[op("skip")]), op("cleanup", body=[op("fatalf", site=2)]), draw(g("Bool"), "p")],
+    # a fatal failure whose panic the property's own code swallows
+    "FR": [op("recover", body=[op("fatalf", site=1)]), draw(g("Bool"), "p")],
     # several goroutines of the test case obtain its context for the first time together (held at rapid's gate between fast and slow path)
     "GX": [op("go", n=3, val="ctx.miss", body=[op("ctx", text="goroutine")]), draw(g("Bool"), "p")],
 }
@@ -465,7 +471,8 @@ def c11(tier, seed):
     extra = [("XC", "P"), ("XC", "XC", "P"), ("S", "XC", "P"), ("AL", "AL", "P"), ("AL", "S", "AL"), ("ES", "AL", "AL"), ("XC", "AL", "XC"),
              ("CS", "XC", "P"), ("CS", "CS", "XC"), ("XC", "CS", "XC", "P"), ("CN", "P"), ("CNP", "P", "P"), ("CNP", "CN", "P"), ("P", "CN", "P", "P"),
              ("CS", "P", "XC"), ("CNP", "XC", "P"), ("CSE", "P"), ("CSE", "P", "P"), ("P", "CSE", "XC"), ("CSE", "CSE", "P"),
-             ("GX", "P"), ("GX", "GX", "XC"), ("XC", "GX", "P"), ("GX", "S", "GX", "P"), ("GX", "XC", "AL")]
+             ("GX", "P"), ("GX", "GX", "XC"), ("XC", "GX", "P"), ("GX", "S", "GX", "P"), ("GX", "XC", "AL"),
+             ("CFS", "P"), ("P", "CFS", "P"), ("S", "S", "CFS"), ("FR", "P"), ("P", "P", "FR"), ("CS", "FR", "P")]
     out = []
     for i, sq in enumerate(list(seqs) + extra):
         cases = {str(j + 1): BEHAVIOURS[b] for j, b in enumerate(sq)}
@@ -709,6 +716,12 @@ def c10(tier, seed):
                                                        op("cleanup", body=[op("goexit")] if i % 2 else [op("ctx", text="in-cleanup")])]), "c"),
                 op("cleanup", body=[op("goexit")] if i % 2 == 0 else [op("ctx", text="in-cleanup")]), op("cleanup", body=[op("ctx", text="in-cleanup")])]
         out.append(scenario("c10-goexit-%d" % i, {"body": body}, {"checks": 5, "seed": rng.randrange(1, 1 << 64), "nofailfile": "true"}, tag={"ending": "goexit in cleanup"}))
+    # a cleanup function asks for the context (a teardown that takes one): the next invocation on the same T still gets a live context of its own
+    for i in range(3 if tier == "quick" else 30):
+        body = [op("ctx", text="body"), op("cleanup", body=[op("ctx", text="in-cleanup")]), draw(g("Int16"), "x", "x"), op("ctx", text="body")] + \
+               ([op("cleanup", body=[op("ctx", text="in-cleanup")])] if i % 2 else []) + ENDINGS[["ret", "dataskip", "threshold"][i % 3]]
+        out.append(scenario("c10-ctx-in-cleanup-%d" % i, {"body": body}, {"checks": 6, "seed": rng.randrange(1, 1 << 64), "nofailfile": "true", "shrinktime": "0s"},
+                            tag={"ending": "context used in cleanup"}))
     # several goroutines of one invocation register cleanups at the same time, dozens each (some scenarios also hold them at rapid's gate
     # inside Cleanup's critical section): every one of them runs exactly once
     for i in range(10 if tier == "quick" else 80):
@@ -1112,6 +1125,9 @@ def c13(tier, seed):
         "cleanups_skip": lambda: [op("cleanup", body=[op("errorf", text="first registered")]), draw(g("Byte"), "x", "x"),
                                   op("cleanup", body=[iff("x", "mod2", 0, [op("skip")])]), op("cleanup", body=[iff("x", "ge", 200, [op("panic", val="error", site=1)])])],
         "sm_hard": lambda: t_sm_hard()[:-1],
+        "cleanup_fatal_then_skip": lambda: [draw(g("Byte"), "x", "x"), op("cleanup", body=[iff("x", "mod2", 0, [op("skip")])]), op("cleanup", body=[op("fatalf", site=2)]),
+                                            draw(g("Bool"), "b")],
+        "fatal_recovered": lambda: [draw(g("Byte"), "x", "x"), iff("x", "ge", 3, [op("recover", body=[op("fatalf", site=1)])]), draw(g("Bool"), "b")],
         "sm_all_skip": lambda: [op("repeat", actions={"s1": [draw(g("Byte"), "q"), op("skip")], "s2": [draw(g("Bool"), "w"), draw(g("Bool"), "w2"), op("skip")]},
                                    inv=[op("ctx")]), draw(g("Int8"), "after")],
         "distinct_dups": lambda: [draw(g("SliceOfNDistinct", elem=IntRange(0, 1), minLen=0, maxLen=5), "d"), draw(g("MapOfN", key=g("Bool"), val=g("Bool"), minLen=1, maxLen=3), "m"),
@@ -1161,7 +1177,7 @@ def c13(tier, seed):
 # Random scripts: seeded random combinations of the whole op vocabulary (beyond the fixed templates).  Every script is
 # deterministic in its draws: conditions only look at values drawn in the same invocation (or the same Custom call).
 
-SIGNALS_NF = [("errorf", {}), ("error", {}), ("fail", {}), ("error0", {})]
+SIGNALS_NF = [("errorf", {}), ("error", {}), ("fail", {}), ("error0", {}), ("errornl", {})]
 SIGNALS_FATAL = [("fatalf", {}), ("fatal", {}), ("failnow", {}), ("panic", {"val": "string"}), ("panic", {"val": "error"}), ("panic", {"val": "struct"}),
                  ("rterr", {"val": "index"}), ("rterr", {"val": "nilmap"}), ("rterr", {"val": "div"})]
 
